@@ -19,27 +19,57 @@ open Mistletoe.InertInline (inertBody inertText proseLine oneLine proseInlines i
 /-- A tree of CommonMark constructs (the fragment covered here).
     * `para ls`: a paragraph given by its source lines (each with its indentation of at most three
       spaces and its final "\n");
-    * `heading level text`: an ATX heading;
-    * `hr c`: a thematic break written with the character `c`;
-    * `quote kids`: a block quote. -/
+    * `heading level text line`: an ATX heading given by its level, its text and its source line (any
+      spelling: `## text`, `  ## text ##`, `##   text   #####   `, …; `atx level text` is the plain one);
+    * `hr line`: a thematic break given by its source line (any spelling: `***`, `- - -`, `  _____`, …);
+    * `quote bare kids`: a block quote; `bare = false`: every line is written behind "> ", `bare = true`:
+      behind ">" (allowed when no line of the content begins with a space). -/
 inductive T where
   | para (lines : List Str)
-  | heading (level : Nat) (text : Str)
-  | hr (c : Char)
-  | quote (kids : List T)
+  | heading (level : Nat) (text : Str) (line : Str)
+  | hr (line : Str)
+  | quote (bare : Bool) (kids : List T)
 
 def hashes (n : Nat) : Str := List.replicate n '#'
 
+/-- the plain spelling of an ATX heading -/
+def atx (lv : Nat) (t : Str) : Str := hashes lv ++ ' ' :: t ++ ['\n']
+
+/-- what `Heading.start` + `Heading.read` extract from a line: level, content, closing sequence -/
+def headContent (line : Str) : Option (Nat × Str × Str) :=
+  match Scan.heading line with
+  | none => none
+  | some m =>
+    let c := strip (m.g2.getD [])
+    some (m.level, if !c.isEmpty && c.all (· == '#') then [] else c, strip (m.g3.getD []))
+
+/-- the `closing_sequence` attribute the heading token gets (it does not reach the HTML) -/
+def closingOf (line : Str) : Str := match headContent line with | some (_, _, cl) => cl | none => []
+
+/-- the line is an ATX heading of this level and text for the dispatcher: `Heading`'s pattern matches with
+    that level and content, and neither `HtmlBlock` nor `BlockCode` (consulted before it) starts on it -/
+def headLine (lv : Nat) (t : Str) (line : Str) : Bool :=
+  (match headContent line with | some (l, c, _) => l == lv && c == t | none => false)
+  && (match htmlBlockStart line with | .ok none => true | _ => false) && !blockCodeStart line
+
 /-- the quote marker used by the writer: "> " before every line, blank separator lines included ("> \n") -/
 def qsp (s : Str) : Str := '>' :: ' ' :: s
+/-- the bare marker ">" -/
+def qbare (s : Str) : Str := '>' :: s
+
+/-- the line is a thematic break for the dispatcher: `ThematicBreak.start` matches and none of the token types
+    consulted before it (`HtmlBlock`, `BlockCode`, `Heading`, `Quote`, `CodeFence`) starts on it -/
+def hrLine (s : Str) : Bool :=
+  Scan.thematicBreak s && (match htmlBlockStart s with | .ok none => true | _ => false) && !blockCodeStart s
+  && (Scan.heading s).isNone && !quoteStart s && (codeFenceStart s).isNone
 
 mutual
 /-- the source lines of one node -/
 def write : T → List Str
   | .para ls => ls
-  | .heading lv t => [hashes lv ++ ' ' :: t ++ ['\n']]
-  | .hr c => [[c, c, c, '\n']]
-  | .quote kids => (writes kids).map qsp
+  | .heading _ _ line => [line]
+  | .hr line => [line]
+  | .quote bare kids => (writes kids).map (if bare then qbare else qsp)
 /-- siblings, separated by exactly one "\n" line -/
 def writes : List T → List Str
   | [] => []
@@ -57,33 +87,34 @@ mutual
       indentation are allowed), has the shape indentation + text + "\n" without whitespace before the
       "\n" (`proseLine`), contains no other line-boundary character (`oneLine`) and no tab; the stripped
       lines joined by "\n" are inline-inert (`inertBody`);
-    * heading: level 1…6; the text is non-empty, inline-inert on one line (`inertText`), has no leading
-      or trailing whitespace, contains no `#`, no tab, no line-boundary character;
-    * thematic break: the character is `*`, `-` or `_`;
-    * quote: at least one child, all well-formed. -/
+    * heading: the text is non-empty and inline-inert on one line (`inertText`); the line is an ATX heading
+      of that level and text for the dispatcher (`headLine`), ends in its only "\n", contains no tab;
+    * thematic break: the line is a thematic break for the dispatcher (`hrLine`), ends in its only "\n",
+      contains no tab;
+    * quote: at least one child, all well-formed; with the bare marker, no written line of the content
+      begins with a space. -/
 def T.ok : T → Bool
   | .para ls => !ls.isEmpty && ls.all (fun l => inertLine l && proseLine l && oneLine l && !l.contains '\t')
       && inertBody (joinNl (ls.map strip))
-  | .heading lv t => decide (1 ≤ lv) && decide (lv ≤ 6) && !t.isEmpty && inertText t && !t.contains '#' && strip t == t
-      && !t.contains '\t' && t.all (fun c => !isLineSep c)
-  | .hr c => c == '*' || c == '-' || c == '_'
-  | .quote kids => !kids.isEmpty && T.oks kids
+  | .heading lv t line => !t.isEmpty && inertText t && headLine lv t line && oneLine line && !line.contains '\t'
+  | .hr line => hrLine line && oneLine line && !line.contains '\t'
+  | .quote bare kids => !kids.isEmpty && T.oks kids && (!bare || (writes kids).all (fun s => s.head? != some ' '))
 def T.oks : List T → Bool
   | [] => true
   | t :: ts => t.ok && T.oks ts
 end
 
 def isQuote : T → Bool
-  | .quote _ => true
+  | .quote _ _ => true
   | _ => false
 
 mutual
 /-- the parse-buffer entry expected for a node whose first line is line `n` (ghost origin = line number) -/
 def entryOf (n : Nat) : T → Entry
   | .para ls => .paragraph ls n n
-  | .heading lv t => .heading lv t [] n n
-  | .hr c => .thematicBreak [c, c, c, '\n'] n n
-  | .quote kids => .quote (entriesOf n kids) (decide (1 < kids.length)) n n
+  | .heading lv t line => .heading lv t (closingOf line) n n
+  | .hr line => .thematicBreak line n n
+  | .quote _ kids => .quote (entriesOf n kids) (decide (1 < kids.length)) n n
 /-- siblings: the next one starts after the lines of this one and the separator -/
 def entriesOf (n : Nat) : List T → List Entry
   | [] => []
@@ -94,9 +125,9 @@ mutual
 /-- gas that suffices for a node (nesting depth × lines) -/
 def need : T → Nat
   | .para _ => 14
-  | .heading _ _ => 14
+  | .heading _ _ _ => 14
   | .hr _ => 14
-  | .quote kids => needs kids + 6
+  | .quote _ kids => needs kids + 6
 def needs : List T → Nat
   | [] => 2
   | t :: rest =>
@@ -227,36 +258,75 @@ theorem readHeading_line (fw : FW) (lv : Nat) (t : Str) (h1 : 1 ≤ lv) (h6 : lv
 
 def dcfg (ti : Bool) : Cfg := { types := defaultTypes, tableInterrupt := ti }
 
-/-- a single ATX heading line: one `Heading` entry -/
-theorem tokenize_heading (ti : Bool) (lv : Nat) (t : Str) (h1 : 1 ≤ lv) (h6 : lv ≤ 6) (hh : '#' ∉ t) (hn : '\n' ∉ t)
-    (hs : strip t = t) (hne : t ≠ []) (og start : Nat) (st : St) (g : Nat) :
-    tokenizeBlock (dcfg ti) (g + 6) [{ s := hashes lv ++ ' ' :: t ++ ['\n'], origin := og }] start st =
-      .ok ({ entries := [.heading lv t [] start og], loose := false }, st) := by
-  obtain ⟨m, rfl⟩ : ∃ m, lv = m + 1 := ⟨lv - 1, by omega⟩
-  have hl : hashes (m + 1) ++ ' ' :: t ++ ['\n'] = '#' :: (hashes m ++ ' ' :: t ++ ['\n']) := by
-    simp [hashes, List.replicate_succ]
-  have hr := readHeading_line { lines := [{ s := hashes (m + 1) ++ ' ' :: t ++ ['\n'], origin := og }], pos := 0, start := start }
-    (m + 1) t h1 h6 hh hn hs hne
-  have e : g + 6 = ((((g + 1) + 1) + 1) + 1 + 1) + 1 := by omega
-  rw [e]
-  simp only [tokenizeBlock, tokLoop, FW.peek, List.getElem?_cons_zero, dcfg, defaultTypes, tryTypes, hr]
-  simp only [hl, hash_html, hash_blockCode, Bool.false_eq_true, if_false]
-  simp [FW.next]
+theorem readHeading_content (fw : FW) (line : Str) :
+    readHeading fw line = (headContent line).map (fun r => (r.1, r.2.1, r.2.2, fw.next)) := by
+  unfold readHeading headContent
+  cases Scan.heading line <;> rfl
 
-theorem hr_facts (c : Char) (hc : c = '*' ∨ c = '-' ∨ c = '_') :
-    htmlBlockStart [c, c, c, '\n'] = .ok none ∧ blockCodeStart [c, c, c, '\n'] = false ∧ Scan.heading [c, c, c, '\n'] = none ∧
-    quoteStart [c, c, c, '\n'] = false ∧ codeFenceStart [c, c, c, '\n'] = none ∧ Scan.thematicBreak [c, c, c, '\n'] = true := by
-  rcases hc with rfl | rfl | rfl <;> decide
+/-- the plain spelling is a heading line: `#`… , one space, a text without `#`, newline or outer whitespace -/
+theorem headLine_atx (lv : Nat) (t : Str) (h1 : 1 ≤ lv) (h6 : lv ≤ 6) (hh : '#' ∉ t) (hn : '\n' ∉ t)
+    (hs : strip t = t) (hne : t ≠ []) : headLine lv t (atx lv t) = true ∧ closingOf (atx lv t) = [] := by
+  have hr := readHeading_line { lines := [], pos := 0, start := 0 } lv t h1 h6 hh hn hs hne
+  rw [readHeading_content] at hr
+  have hc : headContent (atx lv t) = some (lv, t, []) := by
+    unfold atx
+    cases hx : headContent (hashes lv ++ ' ' :: t ++ ['\n']) with
+    | none => rw [hx] at hr; cases hr
+    | some r =>
+      rw [hx] at hr
+      simp only [Option.map_some, Option.some.injEq, Prod.mk.injEq] at hr
+      obtain ⟨a, b, c, _⟩ := hr
+      obtain ⟨r1, r2, r3⟩ := r
+      simp only at a b c
+      rw [a, b, c]
+  obtain ⟨m, rfl⟩ : ∃ m, lv = m + 1 := ⟨lv - 1, by omega⟩
+  have hl : atx (m + 1) t = '#' :: (hashes m ++ ' ' :: t ++ ['\n']) := by
+    simp [atx, hashes, List.replicate_succ]
+  refine ⟨?_, by simp [closingOf, hc]⟩
+  simp only [headLine, hc, beq_self_eq_true, Bool.and_self, Bool.true_and]
+  rw [hl, hash_html, hash_blockCode]
+  rfl
+
+/-- a single ATX heading line: one `Heading` entry -/
+theorem tokenize_heading (ti : Bool) (lv : Nat) (t line : Str) (hl : headLine lv t line = true)
+    (og start : Nat) (st : St) (g : Nat) :
+    tokenizeBlock (dcfg ti) (g + 6) [{ s := line, origin := og }] start st =
+      .ok ({ entries := [.heading lv t (closingOf line) start og], loose := false }, st) := by
+  simp only [headLine, Bool.and_eq_true, Bool.not_eq_eq_eq_not, Bool.not_true] at hl
+  obtain ⟨⟨f3, f1⟩, f2⟩ := hl
+  have f1' : htmlBlockStart line = .ok none := by
+    split at f1
+    · assumption
+    · cases f1
+  cases hc : headContent line with
+  | none => rw [hc] at f3; cases f3
+  | some r =>
+    obtain ⟨l, c, cl⟩ := r
+    rw [hc] at f3
+    simp only [Bool.and_eq_true, beq_iff_eq] at f3
+    obtain ⟨rfl, rfl⟩ := f3
+    have hr := readHeading_content { lines := [{ s := line, origin := og }], pos := 0, start := start } line
+    rw [hc] at hr
+    have e : g + 6 = ((((g + 1) + 1) + 1) + 1 + 1) + 1 := by omega
+    rw [e]
+    simp only [tokenizeBlock, tokLoop, FW.peek, List.getElem?_cons_zero, dcfg, defaultTypes, tryTypes, hr,
+      f1', f2, Bool.false_eq_true, if_false, Option.map_some]
+    simp [FW.next, closingOf, hc]
 
 /-- a single thematic-break line: one `ThematicBreak` entry -/
-theorem tokenize_hr (ti : Bool) (c : Char) (hc : c = '*' ∨ c = '-' ∨ c = '_') (og start : Nat) (st : St) (g : Nat) :
-    tokenizeBlock (dcfg ti) (g + 9) [{ s := [c, c, c, '\n'], origin := og }] start st =
-      .ok ({ entries := [.thematicBreak [c, c, c, '\n'] start og], loose := false }, st) := by
-  obtain ⟨f1, f2, f3, f4, f5, f6⟩ := hr_facts c hc
+theorem tokenize_hr (ti : Bool) (line : Str) (hl : hrLine line = true) (og start : Nat) (st : St) (g : Nat) :
+    tokenizeBlock (dcfg ti) (g + 9) [{ s := line, origin := og }] start st =
+      .ok ({ entries := [.thematicBreak line start og], loose := false }, st) := by
+  simp only [hrLine, Bool.and_eq_true, Bool.not_eq_eq_eq_not, Bool.not_true, Option.isNone_iff_eq_none] at hl
+  obtain ⟨⟨⟨⟨⟨f6, f1⟩, f2⟩, f3⟩, f4⟩, f5⟩ := hl
+  have f1' : htmlBlockStart line = .ok none := by
+    split at f1
+    · assumption
+    · cases f1
   have e : g + 9 = (((((((g + 1) + 1) + 1) + 1) + 1) + 1) + 1 + 1) + 1 := by omega
   rw [e]
   simp only [tokenizeBlock, tokLoop, FW.peek, List.getElem?_cons_zero, dcfg, defaultTypes, tryTypes, readHeading,
-    f1, f2, f3, f4, f5, f6, Bool.false_eq_true, if_false, if_true]
+    f1', f2, f3, f4, f5, f6, Bool.false_eq_true, if_false, if_true]
   simp [FW.next]
 
 /-! ### What well-formedness gives about the written lines -/
@@ -307,9 +377,19 @@ theorem lineOk_qsp {s : Str} (h : LineOk s) : LineOk (qsp s) := by
   · simp only [List.mem_cons, not_or]
     exact ⟨by decide, by decide, ht⟩
 
-theorem lineOk_heading (lv : Nat) (t : Str) (hsep : ∀ c ∈ t, isLineSep c = false) (ht : '\t' ∉ t) :
-    LineOk (hashes lv ++ ' ' :: t ++ ['\n']) := by
-  refine ⟨hashes lv ++ ' ' :: t, by simp, ?_, ?_⟩
+theorem lineOk_qbare {s : Str} (h : LineOk s) : LineOk (qbare s) := by
+  obtain ⟨body, rfl, hb, ht⟩ := h
+  refine ⟨'>' :: body, rfl, ?_, ?_⟩
+  · intro c hc
+    rcases List.mem_cons.mp hc with rfl | hc
+    · decide
+    · exact hb c hc
+  · simp only [List.mem_cons, not_or]
+    exact ⟨by decide, ht⟩
+
+theorem lineOk_atx (lv : Nat) (t : Str) (hsep : ∀ c ∈ t, isLineSep c = false) (ht : '\t' ∉ t) :
+    LineOk (atx lv t) := by
+  refine ⟨hashes lv ++ ' ' :: t, by simp [atx], ?_, ?_⟩
   · intro c hc
     rcases List.mem_append.mp hc with hc | hc
     · simp only [hashes, List.mem_replicate] at hc
@@ -325,30 +405,17 @@ theorem lineOk_heading (lv : Nat) (t : Str) (hsep : ∀ c ∈ t, isLineSep c = f
       · exact absurd hc (by decide)
       · exact ht hc
 
-theorem lineOk_hr (c : Char) (hc : c = '*' ∨ c = '-' ∨ c = '_') : LineOk [c, c, c, '\n'] := by
-  refine ⟨[c, c, c], rfl, ?_, ?_⟩ <;> rcases hc with rfl | rfl | rfl <;> decide
-
 /-- the facts `T.ok` packs for a heading -/
-structure HeadOk (lv : Nat) (t : Str) : Prop where
-  h1 : 1 ≤ lv
-  h6 : lv ≤ 6
+structure HeadOk (lv : Nat) (t line : Str) : Prop where
   ne : t ≠ []
   inert : inertText t = true
-  nohash : '#' ∉ t
-  stripped : strip t = t
-  notab : '\t' ∉ t
-  nosep : ∀ c ∈ t, isLineSep c = false
+  head : headLine lv t line = true
+  line : LineOk line
 
-theorem headOk_of (lv : Nat) (t : Str) (h : (T.heading lv t).ok = true) : HeadOk lv t := by
-  simp only [T.ok, Bool.and_eq_true, decide_eq_true_eq, Bool.not_eq_eq_eq_not, Bool.not_true, beq_iff_eq,
-    List.all_eq_true, List.isEmpty_eq_false_iff] at h
-  obtain ⟨⟨⟨⟨⟨⟨⟨a, b⟩, c⟩, d⟩, e⟩, f⟩, g⟩, i⟩ := h
-  exact ⟨a, b, c, d, by simpa using e, f, by simpa using g, i⟩
-
-theorem headOk_nonl {lv : Nat} {t : Str} (h : HeadOk lv t) : '\n' ∉ t := by
-  intro hm
-  have := h.nosep _ hm
-  revert this; decide
+theorem headOk_of (lv : Nat) (t line : Str) (h : (T.heading lv t line).ok = true) : HeadOk lv t line := by
+  simp only [T.ok, Bool.and_eq_true, Bool.not_eq_eq_eq_not, Bool.not_true, List.isEmpty_eq_false_iff] at h
+  obtain ⟨⟨⟨⟨a, b⟩, c⟩, d⟩, e⟩ := h
+  exact ⟨a, b, c, lineOk_of line d e⟩
 
 open Mistletoe.Document (joinNl) in
 /-- the facts `T.ok` packs for a paragraph -/
@@ -365,15 +432,19 @@ theorem paraOk_of (ls : List Str) (h : (T.para ls).ok = true) : ParaOk ls := by
   obtain ⟨⟨a, b⟩, c⟩ := h
   exact ⟨a, fun l hl => (b l hl).1.1.1, fun l hl => (b l hl).1.1.2, fun l hl => lineOk_of l (b l hl).1.2 (b l hl).2, c⟩
 
-theorem hrOk_of (c : Char) (h : (T.hr c).ok = true) : c = '*' ∨ c = '-' ∨ c = '_' := by
-  have : (c = '*' ∨ c = '-') ∨ c = '_' := by simpa [T.ok] using h
-  rcases this with (h | h) | h
-  · exact Or.inl h
-  · exact Or.inr (Or.inl h)
-  · exact Or.inr (Or.inr h)
+theorem hrOk_of (line : Str) (h : (T.hr line).ok = true) : hrLine line = true ∧ LineOk line := by
+  simp only [T.ok, Bool.and_eq_true, Bool.not_eq_eq_eq_not, Bool.not_true] at h
+  exact ⟨h.1.1, lineOk_of line h.1.2 h.2⟩
 
-theorem quoteOk_of (kids : List T) (h : (T.quote kids).ok = true) : kids ≠ [] ∧ T.oks kids = true := by
-  simpa [T.ok] using h
+theorem quoteOk_of (bare : Bool) (kids : List T) (h : (T.quote bare kids).ok = true) :
+    kids ≠ [] ∧ T.oks kids = true ∧ (bare = true → ∀ s ∈ writes kids, s.head? ≠ some ' ') := by
+  simp only [T.ok, Bool.and_eq_true, Bool.not_eq_eq_eq_not, Bool.not_true, List.isEmpty_eq_false_iff,
+    Bool.or_eq_true, List.all_eq_true, bne_iff_ne, ne_eq] at h
+  refine ⟨h.1.1, h.1.2, ?_⟩
+  intro hb
+  rcases h.2 with h2 | h2
+  · rw [hb] at h2; cases h2
+  · exact h2
 
 theorem oks_cons (t : T) (ts : List T) (h : T.oks (t :: ts) = true) : t.ok = true ∧ T.oks ts = true := by
   simpa [T.oks] using h
@@ -383,24 +454,26 @@ theorem write_lineOk : ∀ (t : T), t.ok = true → (∀ s ∈ write t, LineOk s
   | .para ls, h => by
     have := paraOk_of ls h
     exact ⟨this.line, this.ne⟩
-  | .heading lv t, h => by
-    have := headOk_of lv t h
+  | .heading lv t line, h => by
+    have := headOk_of lv t line h
     simp only [write, List.mem_singleton]
     constructor
-    · intro s hs; subst hs; exact lineOk_heading lv t this.nosep this.notab
+    · intro s hs; rw [hs]; exact this.line
     · simp
-  | .hr c, h => by
+  | .hr line, h => by
     simp only [write, List.mem_singleton]
     constructor
-    · intro s hs; subst hs; exact lineOk_hr c (hrOk_of c h)
+    · intro s hs; rw [hs]; exact (hrOk_of line h).2
     · simp
-  | .quote kids, h => by
-    obtain ⟨hne, hk⟩ := quoteOk_of kids h
+  | .quote bare kids, h => by
+    obtain ⟨hne, hk, _⟩ := quoteOk_of bare kids h
     have ih := writes_lineOk kids hk
     simp only [write, List.mem_map]
     constructor
     · rintro s ⟨s0, hs0, rfl⟩
-      exact lineOk_qsp (ih.1 s0 hs0)
+      cases bare
+      · exact lineOk_qsp (ih.1 s0 hs0)
+      · exact lineOk_qbare (ih.1 s0 hs0)
     · simpa using ih.2 hne
 theorem writes_lineOk : ∀ (ts : List T), T.oks ts = true → (∀ s ∈ writes ts, LineOk s) ∧ (ts ≠ [] → writes ts ≠ [])
   | [], _ => by simp [writes]
@@ -440,9 +513,9 @@ theorem numbered_ne (k : Nat) (ls : List Str) (h : ls ≠ []) : ∃ l0 tl, numbe
 mutual
 theorem shift_entryOf (j : Nat) : ∀ (n : Nat) (t : T), shiftEntry j (entryOf n t) = entryOf (n + j) t
   | n, .para ls => by simp [entryOf, shiftEntry]
-  | n, .heading lv t => by simp [entryOf, shiftEntry]
-  | n, .hr c => by simp [entryOf, shiftEntry]
-  | n, .quote kids => by simp [entryOf, shiftEntry, shift_entriesOf j n kids]
+  | n, .heading lv t line => by simp [entryOf, shiftEntry]
+  | n, .hr line => by simp [entryOf, shiftEntry]
+  | n, .quote _ kids => by simp [entryOf, shiftEntry, shift_entriesOf j n kids]
 theorem shift_entriesOf (j : Nat) : ∀ (n : Nat) (ts : List T), shiftEntries j (entriesOf n ts) = entriesOf (n + j) ts
   | n, [] => by simp [entriesOf, shiftEntries]
   | n, t :: rest => by
@@ -457,9 +530,9 @@ theorem after_false (st : St) : after st false = st := by cases st; simp [after]
 
 theorem closed_entryOf (n : Nat) : ∀ (t : T), closedE (entryOf n t) = true ∧ noList (entryOf n t) = true
   | .para _ => ⟨rfl, rfl⟩
-  | .heading _ _ => ⟨rfl, rfl⟩
+  | .heading _ _ _ => ⟨rfl, rfl⟩
   | .hr _ => ⟨rfl, rfl⟩
-  | .quote _ => ⟨rfl, rfl⟩
+  | .quote _ _ => ⟨rfl, rfl⟩
 
 mutual
 /-- **one node**: the written lines of a well-formed node, numbered from `k + 1`, tokenize to exactly its entry -/
@@ -476,33 +549,56 @@ theorem node_tokenize (ti : Bool) : ∀ (t : T), t.ok = true → ∀ (k : Nat) (
     rw [Nat.add_comm 14 g]
     rw [hs, ho] at this
     exact this
-  | .heading lv t, h, k, st, g => by
-    have hh := headOk_of lv t h
-    have := tokenize_heading ti lv t hh.h1 hh.h6 hh.nohash (headOk_nonl hh) hh.stripped hh.ne (k + 1) (k + 1) st (8 + g)
+  | .heading lv t line, h, k, st, g => by
+    have hh := headOk_of lv t line h
+    have := tokenize_heading ti lv t line hh.head (k + 1) (k + 1) st (8 + g)
     simp only [write, need, isQuote, after_false, entryOf, numbered_cons, show numbered (k + 1) [] = [] from rfl]
     have e : 14 + g = 8 + g + 6 := by omega
     rw [e]; exact this
-  | .hr c, h, k, st, g => by
-    have := tokenize_hr ti c (hrOk_of c h) (k + 1) (k + 1) st (5 + g)
+  | .hr line, h, k, st, g => by
+    have := tokenize_hr ti line (hrOk_of line h).1 (k + 1) (k + 1) st (5 + g)
     simp only [write, need, isQuote, after_false, entryOf, numbered_cons, show numbered (k + 1) [] = [] from rfl]
     have e : 14 + g = 5 + g + 9 := by omega
     rw [e]; exact this
-  | .quote kids, h, k, st, g => by
-    obtain ⟨hne, hk⟩ := quoteOk_of kids h
+  | .quote bare kids, h, k, st, g => by
+    obtain ⟨hne, hk, hbare⟩ := quoteOk_of bare kids h
     have ih := nodes_tokenize ti kids hk hne k { st with setext := false } g
     have hw := writes_lineOk kids hk
     obtain ⟨l0, tl, hl, ho⟩ := numbered_ne k (writes kids) (hw.2 hne)
     rw [hl] at ih
-    have := Props.C04.C04_quote_wraps_default ti l0 tl
-      (fun l hm => lineOk_notab (hw.1 _ (numbered_mem k _ l (by rw [hl]; exact hm)))) (k + 1) st _ (needs kids + g) _ ih
     simp only [write, need, isQuote, entryOf]
-    have e1 : numbered k ((writes kids).map qsp) = (l0 :: tl).map quoteSp := by
-      rw [← hl]; exact Props.C04.numbered_map_sp k (writes kids)
     have e2 : needs kids + 6 + g = needs kids + g + 6 := by omega
-    rw [e1, e2]
-    refine Eq.trans this ?_
-    rw [ho]
-    simp [after]
+    have hmem : ∀ l ∈ l0 :: tl, l.s ∈ writes kids := fun l hm => numbered_mem k _ l (by rw [hl]; exact hm)
+    cases bare with
+    | false =>
+      have := Props.C04.C04_quote_wraps_default ti l0 tl
+        (fun l hm => lineOk_notab (hw.1 _ (hmem l hm))) (k + 1) st _ (needs kids + g) _ ih
+      have e1 : numbered k ((writes kids).map qsp) = (l0 :: tl).map quoteSp := by
+        rw [← hl]; exact Props.C04.numbered_map_sp k (writes kids)
+      simp only [Bool.false_eq_true, if_false]
+      rw [e1, e2]
+      refine Eq.trans this ?_
+      rw [ho]
+      simp [after]
+    | true =>
+      have := Props.C04.C04_quote_wraps_bare (dcfg ti) [.htmlBlock, .blockCode, .heading]
+        [.codeFence, .thematicBreak, .list, .table, .footnote, .paragraph] rfl (by decide) (by decide) l0 tl
+        (fun l hm => ⟨lineOk_notab (hw.1 _ (hmem l hm)), by
+          have hne' := lineOk_ne (hw.1 _ (hmem l hm))
+          have hsp := hbare rfl _ (hmem l hm)
+          cases hs : l.s with
+          | nil => exact absurd hs hne'
+          | cons c r =>
+            refine ⟨c, r, rfl, ?_⟩
+            intro e; rw [hs, e] at hsp; exact hsp rfl⟩)
+        (k + 1) st _ (needs kids + g) _ ih
+      have e1 : numbered k ((writes kids).map qbare) = (l0 :: tl).map quoteBare := by
+        rw [← hl]; exact Props.C04.numbered_map_bare k (writes kids)
+      simp only [if_true]
+      rw [e1, e2]
+      refine Eq.trans this ?_
+      rw [ho]
+      simp [after]
 /-- **siblings**, separated by one "\n" line each -/
 theorem nodes_tokenize (ti : Bool) : ∀ (ts : List T), T.oks ts = true → ts ≠ [] → ∀ (k : Nat) (st : St) (g : Nat),
     tokenizeBlock (dcfg ti) (needs ts + g) (numbered k (writes ts)) (k + 1) st =
@@ -563,9 +659,9 @@ mutual
 /-- the block token expected for a node whose first line is line `n` -/
 def blockOf (n : Nat) : T → Mistletoe.Block
   | .para ls => .paragraph (proseInlines (ls.map strip)) n
-  | .heading lv t => .heading lv [] [.rawText t] n
-  | .hr c => .thematicBreak [c, c, c] n
-  | .quote kids => .quote (blocksOf n kids) n
+  | .heading lv t line => .heading lv (closingOf line) [.rawText t] n
+  | .hr line => .thematicBreak (Document.stripNl line) n
+  | .quote _ kids => .quote (blocksOf n kids) n
 def blocksOf (n : Nat) : List T → List Mistletoe.Block
   | [] => []
   | t :: rest => blockOf n t :: blocksOf (n + (write t).length + 1) rest
@@ -581,9 +677,6 @@ theorem mkBlock_of_single (cfg : Document.Cfg) (fn : Footnotes.Table) (e : Entry
     | none => simp [hm] at h
     | some x => simp only [hm, Res.ok.injEq, List.cons.injEq, and_true] at h; rw [h]
 
-theorem stripNl_hr (c : Char) (hc : c = '*' ∨ c = '-' ∨ c = '_') : Document.stripNl [c, c, c, '\n'] = [c, c, c] := by
-  rcases hc with rfl | rfl | rfl <;> decide
-
 mutual
 theorem mkBlock_entryOf (cfg : Document.Cfg) (fn : Footnotes.Table) (ht : ∀ t ∈ cfg.span, inertClass t = true)
     (hc : cfg.span.count .lineBreak = 1) : ∀ (t : T), t.ok = true → ∀ (n : Nat),
@@ -591,14 +684,14 @@ theorem mkBlock_entryOf (cfg : Document.Cfg) (fn : Footnotes.Table) (ht : ∀ t 
   | .para ls, h, n => by
     have hp := paraOk_of ls h
     exact mkBlock_of_single cfg fn _ _ (InertInline.mkBlocks_prose cfg fn ls n n ht hc hp.ne hp.prose hp.body)
-  | .heading lv t, h, n => by
-    have hh := headOk_of lv t h
+  | .heading lv t line, h, n => by
+    have hh := headOk_of lv t line h
     have hin : Document.inl cfg fn t = .ok [.rawText t] := InertInline.tokenizeInner_inert cfg.span fn t ht hh.inert hh.ne
     simp only [entryOf, blockOf, mkBlock, hin]
-  | .hr c, h, n => by
-    simp only [entryOf, blockOf, mkBlock, stripNl_hr c (hrOk_of c h)]
-  | .quote kids, h, n => by
-    obtain ⟨_, hk⟩ := quoteOk_of kids h
+  | .hr line, h, n => by
+    simp only [entryOf, blockOf, mkBlock]
+  | .quote bare kids, h, n => by
+    obtain ⟨_, hk, _⟩ := quoteOk_of bare kids h
     simp only [entryOf, blockOf, mkBlock, mkBlocks_entriesOf cfg fn ht hc kids hk n]
 theorem mkBlocks_entriesOf (cfg : Document.Cfg) (fn : Footnotes.Table) (ht : ∀ t ∈ cfg.span, inertClass t = true)
     (hc : cfg.span.count .lineBreak = 1) : ∀ (ts : List T), T.oks ts = true → ∀ (n : Nat),
@@ -642,9 +735,9 @@ mutual
 /-- the HTML of one node -/
 def htmlNode (q : Quotes) : T → Str
   | .para ls => paraHtml q ls
-  | .heading lv t => headHtml q lv t
+  | .heading lv t _ => headHtml q lv t
   | .hr _ => hrHtml
-  | .quote kids => quoteHtml (htmlKids q kids)
+  | .quote _ kids => quoteHtml (htmlKids q kids)
 /-- nodes, each followed by a newline -/
 def htmlKids (q : Quotes) : List T → Str
   | [] => []
@@ -664,15 +757,15 @@ theorem flat_blockOf (q : Quotes) : ∀ (t : T) (n : Nat), flat (renderBlock q f
     simp only [blockOf, htmlNode, paraHtml]
     simp only [renderBlock, Bool.false_eq_true, if_false, flat_append, flat_prose]
     simp [flat, flatEv, flatAttrs]
-  | .heading lv t, n => by
+  | .heading lv t line, n => by
     simp only [blockOf, htmlNode, headHtml]
     simp only [renderBlock, renderInlines, renderInline, flat_cons, flat_nil,
       flatEv, flatAttrs, List.append_nil, List.append_assoc, List.cons_append, List.nil_append]
-  | .hr c, n => by
+  | .hr line, n => by
     simp only [blockOf, htmlNode, hrHtml]
     simp only [renderBlock]
     decide
-  | .quote kids, n => by
+  | .quote _ kids, n => by
     simp only [blockOf, htmlNode]
     simp only [renderBlock, flat_append, flat_afterEach q kids n]
     generalize htmlKids q kids = x
@@ -704,9 +797,9 @@ theorem quoteHtml_ne (x : Str) : quoteHtml x ≠ [] := by simp [quoteHtml]
 
 theorem htmlNode_ne (q : Quotes) : ∀ (t : T), htmlNode q t ≠ []
   | .para _ => by simp [htmlNode, paraHtml]
-  | .heading _ _ => by simp [htmlNode, headHtml]
+  | .heading _ _ _ => by simp [htmlNode, headHtml]
   | .hr _ => by simp [htmlNode, hrHtml]
-  | .quote _ => by simp only [htmlNode]; exact quoteHtml_ne _
+  | .quote _ _ => by simp only [htmlNode]; exact quoteHtml_ne _
 
 /-- **the HTML renderer on the expected document** -/
 theorem render_blocksOf (o : Opts) (ts : List T) (hne : ts ≠ []) (fn : List (Str × Str × Str)) :
@@ -777,4 +870,49 @@ theorem renderHtml_writes (o : Opts) (ts : List T) (h : T.oks ts = true) (hne : 
     rw [parse_writes cfg _ hb ht hcnt ts h hne g]
     simp only
     rw [render_blocksOf o ts hne]
+
+/-! ### The tree without its spelling -/
+
+/-- the abstract tree: what the HTML depends on -/
+inductive A where
+  | para (text : Str)
+  | heading (level : Nat) (text : Str)
+  | hr
+  | quote (kids : List A)
+
+mutual
+/-- forget the spelling: indentation and line layout of paragraphs are kept only as the stripped lines
+    joined by "\n"; the spelling of headings, thematic breaks and quote markers is dropped -/
+def shape : T → A
+  | .para ls => .para (joinNl (ls.map strip))
+  | .heading lv t _ => .heading lv t
+  | .hr _ => .hr
+  | .quote _ kids => .quote (shapes kids)
+def shapes : List T → List A
+  | [] => []
+  | t :: rest => shape t :: shapes rest
+end
+
+mutual
+/-- HTML written directly from the abstract tree -/
+def htmlA (q : Quotes) : A → Str
+  | .para text => "<p>".toList ++ escapeHtmlText q.dq q.sq text ++ "</p>".toList
+  | .heading lv t => headHtml q lv t
+  | .hr => hrHtml
+  | .quote kids => quoteHtml (htmlAs q kids)
+def htmlAs (q : Quotes) : List A → Str
+  | [] => []
+  | a :: rest => htmlA q a ++ '\n' :: htmlAs q rest
+end
+
+mutual
+theorem htmlNode_shape (q : Quotes) : ∀ (t : T), htmlNode q t = htmlA q (shape t)
+  | .para ls => by simp only [htmlNode, shape, htmlA, paraHtml]
+  | .heading lv t _ => by simp only [htmlNode, shape, htmlA]
+  | .hr _ => by simp only [htmlNode, shape, htmlA]
+  | .quote _ kids => by simp only [htmlNode, shape, htmlA, htmlKids_shapes q kids]
+theorem htmlKids_shapes (q : Quotes) : ∀ (ts : List T), htmlKids q ts = htmlAs q (shapes ts)
+  | [] => by simp only [htmlKids, shapes, htmlAs]
+  | t :: rest => by simp only [htmlKids, shapes, htmlAs, htmlNode_shape q t, htmlKids_shapes q rest]
+end
 end Mistletoe.Compose
